@@ -764,6 +764,11 @@ func PhytoOut(g *GlobalVarsMain, l *CropSharedVars, hPath *HFilePath, zeit int, 
 		}
 	} else {
 		g.GEHOB = (g.PESUM + SUMPE + g.NFIX - g.WUMAS*g.WUGEH) / g.OBMAS
+		if g.GEHOB < 0 && g.WUMAS > 0 {
+			// the roots cannot hold more N than the whole crop: the root concentration gives way, the shoot concentration is not negative
+			g.WUGEH = (g.PESUM + SUMPE + g.NFIX) / g.WUMAS
+			g.GEHOB = 0
+		}
 	}
 }
 
